@@ -296,6 +296,9 @@ class _FakeSocket:
         pass
 
     def bind(self, addr):
+        # an address the operating system refuses to bind (still tentative, gone): Endpoint.bind_fail = {address text}
+        if self.kind == 'udp' and CTX.ep is not None and str(addr[0]) in getattr(CTX.ep, 'bind_fail', ()):
+            raise OSError(99, 'Cannot assign requested address')
         self.addr = addr
 
     def listen(self, *a):
